@@ -211,6 +211,17 @@ func ParseCopySource(copySourceHeader string) (string, string, string, error) {
 		return "", "", "", s3err.GetAPIError(s3err.ErrInvalidCopySource)
 	}
 
+	// bucket, key and version id are used as path elements by the
+	// backends: "." and ".." elements would be resolved, not named
+	for _, el := range strings.Split(copySource, "/") {
+		if el == "." || el == ".." {
+			return "", "", "", s3err.GetAPIError(s3err.ErrInvalidCopySource)
+		}
+	}
+	if strings.Contains(versionId, "/") || versionId == "." || versionId == ".." {
+		return "", "", "", s3err.GetAPIError(s3err.ErrInvalidCopySource)
+	}
+
 	return srcBucket, srcObject, versionId, nil
 }
 
